@@ -13,8 +13,9 @@
 (*                                                                         *)
 (* An input is a record with a field kind in {"if","for","each","while"};  *)
 (* Expect(inp) is the sequence of emitted declarations:                    *)
-(*   if     <<j>> = the body of branch j ran (j = number of conditions + 1 *)
-(*          for @else), <<>> = none                                        *)
+(*   if     the numbers of the probes that ran: <<j>> = the body of branch *)
+(*          j (number of conditions + 1 for @else; an @else block may also *)
+(*          hold a nested @if with probes + 2 / + 3), <<>> = none          *)
 (*   for    the values of $i as [n, u]                                     *)
 (*   each   per iteration the value of every variable as a flat sequence   *)
 (*          of atom tokens                                                 *)
@@ -40,24 +41,53 @@ Truthy(t) == t \notin {"false", "null"}
 ---------------------------------------------------------------------------
 (* @if / @else if / @else                                                   *)
 
-RECURSIVE FirstTruthy(_, _)
-(* index of the first truthy condition from position i; 0 if none *)
-FirstTruthy(conds, i) ==
-  IF i > Len(conds) THEN 0 ELSE IF Truthy(conds[i]) THEN i ELSE FirstTruthy(conds, i + 1)
+(* input: conds = the conditions of @if / @else if ..; else = 0 no @else,   *)
+(* 1 `@else { P(n+1) }`, 2 `@else { @if nc { P(n+2) } P(n+1) }`,            *)
+(* 3 `@else { @if nc { P(n+2) } @else { P(n+3) } P(n+1) }` (an @else block *)
+(* that merely STARTS with an @if is not an `@else if` link); P(j) emits j. *)
+(* The directive is an AST: an if node [c, then, else] whose else body is    *)
+(* either the next link of the chain or the final block; bodies are         *)
+(* sequences of items "emit" / "if".                                        *)
 
-IfExpect(inp) ==
-  LET j == FirstTruthy(inp.conds, 1) IN
-  IF j > 0 THEN Ok(<<j>>)
-  ELSE IF inp.else = 1 THEN Ok(<<Len(inp.conds) + 1>>)
-  ELSE Ok(<<>>)
+Emit1(j) == [t |-> "emit", j |-> j]
+IfNode(c, th, el) == [t |-> "if", c |-> c, th |-> th, el |-> el]
 
-(* declarative: exactly the first branch whose condition is truthy *)
-LawIf(inp, o) ==
+ElseBody(inp) ==
   LET n == Len(inp.conds) IN
-  /\ o.k = "ok" /\ Len(o.out) <= 1
+  CASE inp.else = 0 -> <<>>
+    [] inp.else = 1 -> <<Emit1(n + 1)>>
+    [] inp.else = 2 -> <<IfNode(inp.ncond, <<Emit1(n + 2)>>, <<>>), Emit1(n + 1)>>
+    [] inp.else = 3 -> <<IfNode(inp.ncond, <<Emit1(n + 2)>>, <<Emit1(n + 3)>>), Emit1(n + 1)>>
+
+RECURSIVE ChainAst(_, _)
+(* @if c_i {P(i)} @else <rest of the chain>: an `@else if` is an else body that is exactly one if node *)
+ChainAst(inp, i) ==
+  IF i > Len(inp.conds) THEN ElseBody(inp)
+  ELSE <<IfNode(inp.conds[i], <<Emit1(i)>>, ChainAst(inp, i + 1))>>
+
+RECURSIVE RunBody(_, _)
+(* operational: run the items of a body in order; an if node runs exactly one of its two bodies *)
+RunBody(body, k) ==
+  IF k > Len(body) THEN <<>>
+  ELSE LET it == body[k] IN
+       (IF it.t = "emit" THEN <<it.j>>
+        ELSE IF Truthy(it.c) THEN RunBody(it.th, 1) ELSE RunBody(it.el, 1))
+       \o RunBody(body, k + 1)
+
+IfExpect(inp) == Ok(RunBody(ChainAst(inp, 1), 1))
+
+(* declarative: exactly the first branch whose condition is truthy runs, and it runs completely *)
+LawIf(inp, o) ==
+  LET n == Len(inp.conds)
+      allfalse == \A i \in 1..n : ~Truthy(inp.conds[i])
+      nested == IF inp.else < 2 THEN <<>>
+                ELSE IF Truthy(inp.ncond) THEN <<n + 2>>
+                ELSE IF inp.else = 3 THEN <<n + 3>> ELSE <<>>
+  IN
+  /\ o.k = "ok"
   /\ \A j \in 1..n : (o.out = <<j>>) <=> (Truthy(inp.conds[j]) /\ \A i \in 1..(j - 1) : ~Truthy(inp.conds[i]))
-  /\ (o.out = <<n + 1>>) <=> (inp.else = 1 /\ \A i \in 1..n : ~Truthy(inp.conds[i]))
-  /\ (o.out = <<>>) <=> (inp.else = 0 /\ \A i \in 1..n : ~Truthy(inp.conds[i]))
+  /\ allfalse => o.out = (IF inp.else = 0 THEN <<>> ELSE nested \o <<n + 1>>)
+  /\ ~allfalse => Len(o.out) = 1 /\ o.out[1] \in 1..n
 
 ---------------------------------------------------------------------------
 (* Units: a tiny table.  Scale[u] = size of one u in a common integer base *)
@@ -208,7 +238,8 @@ SeqSet(q) == {q[i] : i \in DOMAIN q}
 Contexts == {"top", "mixin", "fn"}
 WellFormed(inp) ==
   /\ inp.ctx \in Contexts
-  /\ CASE inp.kind = "if"    -> Len(inp.conds) >= 1 /\ SeqSet(inp.conds) \subseteq CondToks /\ inp.else \in {0, 1}
+  /\ CASE inp.kind = "if"    -> /\ Len(inp.conds) >= 1 /\ SeqSet(inp.conds) \subseteq CondToks /\ inp.else \in 0..3
+                                /\ (IF inp.else >= 2 THEN inp.ncond \in CondToks ELSE inp.ncond = "-")
        [] inp.kind = "for"   -> inp.ua \in Units /\ inp.ub \in Units /\ inp.incl \in {0, 1} /\ inp.a \in Int /\ inp.b \in Int
        [] inp.kind = "each"  -> /\ inp.n \in 1..3 /\ inp.shape \in {"space", "comma", "bracket", "map", "single", "empty"}
                                 /\ Len(inp.items) <= 6 /\ SeqSet(inp.items) \subseteq {-1, 0, 2, 3, 4}
